@@ -65,6 +65,24 @@ type stimCase struct {
 	PlugAt   string   `json:"plugin_at,omitempty"`  // open | handler
 	PlugN    string   `json:"plugin_notif_hex,omitempty"`
 	Delivery string   `json:"expect_delivery_hex,omitempty"` // length-sweep: body that must be delivered
+	// Cfg varies the session the stimulus meets: "" (local hold default, remote 90) | lhold0 | rhold0 | lhold3 | ibgp
+	Cfg string `json:"cfg,omitempty"`
+}
+
+// stimCfg returns (local hold option or -1, hold time in the remote's OPEN, remote AS).
+func stimCfg(cfg string) (lhold int, rhold uint16, ras uint32) {
+	lhold, rhold, ras = -1, 90, 65002
+	switch cfg {
+	case "lhold0":
+		lhold = 0
+	case "rhold0":
+		rhold = 0
+	case "lhold3":
+		lhold = 3
+	case "ibgp":
+		ras = 65001
+	}
+	return
 }
 
 type stimObs struct {
@@ -93,7 +111,8 @@ func runStim(cs stimCase, trace bool) (*stimObs, *vrt.Exec) {
 		return &corebgp.Notification{Code: plugN[0], Subcode: plugN[1], Data: append([]byte(nil), plugN[2:]...)}
 	}
 	conns := 0
-	s := &Sess{LocalAS: 65001, RemoteAS: 65002, Hold: -1, Inbound: cs.Inbound, Horizon: 20 * time.Second, Reconnect: cs.Expect == "second-connection",
+	lhold, rhold, ras := stimCfg(cs.Cfg)
+	s := &Sess{LocalAS: 65001, RemoteAS: ras, Hold: lhold, Inbound: cs.Inbound, Horizon: 20 * time.Second, Reconnect: cs.Expect == "second-connection",
 		Plugin: func(w *world.World) *world.Plugin {
 			p := &world.Plugin{W: w, Peer: "P1", Marker: true, NoYield: true}
 			if cs.PlugAt == "open" {
@@ -109,19 +128,19 @@ func runStim(cs stimCase, trace bool) (*stimObs, *vrt.Exec) {
 			conns++
 			if cs.Expect == "second-connection" && conns == 2 {
 				// the second connection of the peer: a clean handshake must work
-				o.secondUp = reach(r, stEstablished, 65002, 90)
+				o.secondUp = reach(r, stEstablished, ras, rhold)
 				o.secondRx = append([]wire.Msg{}, r.Rx...)
 				return
 			}
 			if cs.PlugAt == "open" {
 				// reach OpenSent, send a valid OPEN, the plugin refuses it
-				if !reach(r, stOpenSent, 65002, 90) {
+				if !reach(r, stOpenSent, ras, rhold) {
 					return
 				}
 				o.reached = true
-				r.Send(wire.Open(65002, 90, 0x0a000002))
+				r.Send(wire.Open(ras, rhold, 0x0a000002))
 			} else {
-				if !reach(r, st, 65002, 90) {
+				if !reach(r, st, ras, rhold) {
 					return
 				}
 				o.reached = true
@@ -400,8 +419,9 @@ func headerAdmit(hdr []byte) [][3]int {
 	var a [][3]int
 	for i := 0; i < 16; i++ {
 		if hdr[i] != 0xff {
-			a = append(a, [3]int{1, 1, -1})
-			break
+			// a stream that is not synchronised has no length or type field to speak of: the marker
+			// sentence of the property comes first and is unconditional
+			return [][3]int{{1, 1, -1}}
 		}
 	}
 	l := int(hdr[16])<<8 | int(hdr[17])
@@ -453,6 +473,18 @@ func c08Check(c *harness.Ctx) {
 	faults = append(faults, hdrFault{wire.RawHeader([16]byte{}, 19, wire.TypeKeepalive), nil})
 	// several faults at once
 	faults = append(faults, hdrFault{wire.RawHeader([16]byte{}, 5, 99), nil}, hdrFault{wire.RawHeader(wire.GoodMarker, 4097, 77), nil})
+	for _, pos := range []int{0, 7, 15} {
+		for _, l := range []uint16{0, 18, 4097, 65535} {
+			for _, t := range []byte{wire.TypeKeepalive, wire.TypeUpdate, 0, 5} {
+				m := wire.GoodMarker
+				m[pos] = 0xfe
+				faults = append(faults, hdrFault{wire.RawHeader(m, l, t), nil})
+			}
+		}
+		m := wire.GoodMarker
+		m[pos] = 0
+		faults = append(faults, hdrFault{wire.RawHeader(m, 19, 0), nil}, hdrFault{wire.RawHeader(m, 23, 200), []byte{1, 2, 3, 4}})
+	}
 	// lengths out of range
 	var lens []int
 	for l := 0; l <= 18; l++ {
@@ -506,6 +538,17 @@ func c08Check(c *harness.Ctx) {
 							Expect: "notif", Admit: headerAdmit(f.hdr)}
 						if !run(cs, len(cs.Admit) == 1) {
 							return
+						}
+						// the same fault in sessions with other hold-time configurations (local 0: no
+						// timers at all; remote 0; local 3: short timers)
+						if pi == 0 && (th || fi%5 == 0) {
+							for _, cfg := range []string{"lhold0", "rhold0", "lhold3", "ibgp"} {
+								cc := cs
+								cc.Cfg = cfg
+								if !run(cc, len(cs.Admit) == 1) {
+									return
+								}
+							}
 						}
 					}
 				}
@@ -654,6 +697,46 @@ func c09Check(c *harness.Ctx) {
 						fin := cs
 						fin.Post, fin.End = "", "fin"
 						if !run(fin) {
+							return
+						}
+					}
+					for _, cfg := range []string{"lhold0", "rhold0", "lhold3", "ibgp"} {
+						cc := cs
+						cc.Cfg = cfg
+						if name == "open" {
+							_, rh, ras := stimCfg(cfg)
+							cc.Stimulus = hex.EncodeToString(wire.Open(ras, rh, 0x0a000002))
+						}
+						if !run(cc) {
+							return
+						}
+					}
+				}
+			}
+			// an OPEN is unexpected in OpenConfirm and Established whatever it says: OPENs that would be
+			// refused in OpenSent for their CONTENT (well-formed, decodable) are FSM errors here too
+			if st != stOpenSent {
+				c4 := wire.CapParam(wire.Cap4(65002))
+				bad := map[string][]byte{
+					"version3":      wire.Frame(wire.TypeOpen, wire.OpenBody(3, wire.AS2(65002), 90, 0x0a000002, c4)),
+					"version0":      wire.Frame(wire.TypeOpen, wire.OpenBody(0, wire.AS2(65002), 90, 0x0a000002, c4)),
+					"version255":    wire.Frame(wire.TypeOpen, wire.OpenBody(255, wire.AS2(65002), 90, 0x0a000002, c4)),
+					"other-as":      wire.Open(64999, 90, 0x0a000002),
+					"hold1":         wire.Open(65002, 1, 0x0a000002),
+					"hold2":         wire.Open(65002, 2, 0x0a000002),
+					"hold0":         wire.Open(65002, 0, 0x0a000002),
+					"id-multicast":  wire.Open(65002, 90, 0xe0000001),
+					"id-zero":       wire.Open(65002, 90, 0),
+					"id-local":      wire.Open(65002, 90, 0x0a000001),
+					"id-changed":    wire.Open(65002, 90, 0x0a000063),
+					"no-capability": wire.Frame(wire.TypeOpen, wire.OpenBody(4, wire.AS2(65002), 90, 0x0a000002, wire.CapParam(wire.Cap{Code: 1, Value: []byte{0, 1, 0, 1}}))),
+					"more-caps":     wire.Frame(wire.TypeOpen, wire.OpenBody(4, wire.AS2(65002), 90, 0x0a000002, wire.CapParam(wire.Cap4(65002), wire.Cap{Code: 2}, wire.Cap{Code: 69, Value: []byte{0, 1, 1, 3}}))),
+				}
+				for _, name := range []string{"version3", "version0", "version255", "other-as", "hold1", "hold2", "hold0", "id-multicast", "id-zero", "id-local", "id-changed", "no-capability", "more-caps"} {
+					for _, end := range []string{"", "fin"} {
+						cs := stimCase{Kind: "table", State: st, Inbound: inbound, Msg: "open:" + name, Stimulus: hex.EncodeToString(bad[name]), End: end,
+							Expect: "notif", Admit: [][3]int{{5, st, 1}}}
+						if !run(cs) {
 							return
 						}
 					}
